@@ -50,6 +50,12 @@ def jobs_for(tier):
     # reported deterministically (and its disappearance after a repair is visible)
     for f in sorted(glob.glob(os.path.join(VERIF, "corpus", "findings", "C14", "*.json"))):
         inp = json.load(open(f))["input"]
+        if inp.get("felts"):
+            cp = inp.get("class_path") or ""
+            if cp.startswith("/repo/"):
+                cp = os.path.join(REPO, cp[len("/repo/"):])
+            jobs.append({"id": inp["id"], "kind": "replay_felts", "class_path": cp, "felts": inp["felts"]})
+            continue
         jobs.append({"id": inp["id"], "kind": "replay_prog", "sierra": inp.get("sierra", ""), "program_json": inp.get("program_json", "")})
     return jobs
 
